@@ -22,7 +22,7 @@ def gen_cases(chk):
         if rl:
             base["palette"] = [abs(x) + 0.125 for x in base["palette"]]
         nb = rng.randint(2, max_b)
-        base["ops"] = [["calibrate", nb], ["calibrate", 1]]
+        base["ops"] = [["calibrate", nb], ["calibrate", 2 if rl else 1]]     # RL: the retry needs a bootstrap batch and an agent-chosen one
         # run once fault-free to learn how many invocations there are
         probe = cc.run_case(dict(base, idx=0))
         v = probe["views"][0]
@@ -33,13 +33,18 @@ def gen_cases(chk):
         for uid, calls, _ in v["samplers"]:
             plans += [["sampler", uid, k] for k in range(calls)]
         if quick and len(plans) > 28:
-            rng.shuffle(plans)
-            plans = plans[:28]
+            first = [p for p in plans if p[-1] == 0]          # faults in the very first batch are always kept
+            rest = [p for p in plans if p[-1] != 0]
+            rng.shuffle(rest)
+            plans = first + rest[: max(0, 28 - len(first))]
         for j, f in enumerate(plans):
             c = copy.deepcopy(base)
             c["idx"], c["fault"] = len(cases), f
             if j % 3 == 2:
                 c["fault_flavour"] = "interrupt"      # the same fault raised as a KeyboardInterrupt (a BaseException)
+            elif j % 3 == 1:
+                c["fault_flavour"] = "bare"           # an exception without a message
+                c["cfg"]["verbose"] = True
             cases.append(c)
     return cases
 
